@@ -134,10 +134,12 @@ struct P_C18
             for (auto& e : c.script)
                 if (e[3] == 2 && e[0] > 32)
                 {
+                    // lengths around the 16-bit boundary (65534, 65535 = the library's "no match" marker for term_idx, 65536, 65537) and beyond
+                    const size_t giant_len = rng.chance(1, 2) ? 65534 + rng.below(4) : 65536 + rng.below(5000);
                     gg::Input in; std::vector<int> s; if (an.productive[size_t(c.g.g.root)]) ref::derive(c.g.g, an, c.g.g.root, 3, rng, s, 12);
                     std::string pre, post; bool placed = false;
-                    for (int t : s) { if (!placed && t == e[1]) { in.text += std::string(65536 + rng.below(5000), char(e[0])); in.text += ' '; placed = true; continue; } if (of_term[size_t(t)].empty()) { in.text += '?'; continue; } in.text += char(of_term[size_t(t)][0]); in.text += ' '; }
-                    if (!placed) in.text = std::string(65536 + rng.below(5000), char(e[0])) + " " + in.text;
+                    for (int t : s) { if (!placed && t == e[1]) { in.text += std::string(giant_len, char(e[0])); in.text += ' '; placed = true; continue; } if (of_term[size_t(t)].empty()) { in.text += '?'; continue; } in.text += char(of_term[size_t(t)][0]); in.text += ' '; }
+                    if (!placed) in.text = std::string(giant_len, char(e[0])) + " " + in.text;
                     c.g.inputs.push_back(in); c.labels.push_back("giant-term");
                     break;
                 }
